@@ -466,7 +466,8 @@ func mspecsC10(tier string) []*mc.MSpec {
 				}
 			}
 			if counter(w, "tr") < 2 {
-				for _, set := range [][]string{{"a"}, {"b"}, {"a", "b"}} {
+				// "" in a list is no token id: a connection without one is addressed by no reset
+				for _, set := range [][]string{{"a"}, {"b"}, {"a", "b"}, {""}, {"b", ""}} {
 					set := set
 					out = append(out, svcAct("tokenReset/"+strings.Join(set, "+"), func(w *mc.World) { bump(w, "tr"); w.Svc.TokenReset("auth.test.renew", set...) }))
 				}
